@@ -21,6 +21,7 @@ import (
 	"encoding/binary"
 	"fmt"
 	"io"
+	"math"
 	"sort"
 	"sync"
 	"sync/atomic"
@@ -608,6 +609,10 @@ func (i *Snapshot) readFromVersion1(br *bufio.Reader) (int64, error) {
 	}
 	bytesRead += int64(sz)
 
+	if numSegments > math.MaxInt32 {
+		return bytesRead, fmt.Errorf("error reading snapshot %d: invalid number of segments %d", i.epoch, numSegments)
+	}
+
 	for j := 0; j < int(numSegments); j++ {
 		segmentBytesRead, ss, err := i.readSegmentSnapshot(br)
 		if err != nil {
@@ -671,12 +676,12 @@ func (i *Snapshot) readSegmentSnapshot(br *bufio.Reader) (bytesRead int64, ss *s
 	bytesRead += int64(sz)
 
 	if delLen > 0 {
-		deletedBytes := make([]byte, int(delLen))
-		sz, err = io.ReadFull(br, deletedBytes)
+		var deletedBytes []byte
+		deletedBytes, err = readBytes(br, delLen)
+		bytesRead += int64(len(deletedBytes))
 		if err != nil {
 			return bytesRead, nil, fmt.Errorf("error reading snapshot %d: %w", i.epoch, err)
 		}
-		bytesRead += int64(sz)
 
 		rr := bytes.NewReader(deletedBytes)
 		deletedBitmap := roaring.NewBitmap()
@@ -704,13 +709,27 @@ func readVarLenString(r *bufio.Reader) (n int, str string, err error) {
 	}
 	n += sz
 
-	strBytes := make([]byte, strLen)
-	sz, err = io.ReadFull(r, strBytes)
+	strBytes, err := readBytes(r, strLen)
+	n += len(strBytes)
 	if err != nil {
 		return n, "", err
 	}
-	n += sz
 	return n, string(strBytes), nil
+}
+
+// readBytes reads exactly n bytes. The length comes from the file and is not
+// trusted: memory is only allocated as the bytes actually arrive, and a
+// short file yields io.ErrUnexpectedEOF.
+func readBytes(r io.Reader, n uint64) ([]byte, error) {
+	if n > math.MaxInt32 {
+		return nil, fmt.Errorf("invalid length %d", n)
+	}
+	var buf bytes.Buffer
+	_, err := io.CopyN(&buf, r, int64(n))
+	if err == io.EOF {
+		err = io.ErrUnexpectedEOF
+	}
+	return buf.Bytes(), err
 }
 
 func (i *Snapshot) DocumentValueReader(fields []string) (
